@@ -678,6 +678,15 @@ Redir:
 }
 
 func (l *lexer) lexHeredoc() action {
+	if !l.readHeredocs() {
+		return nil
+	}
+	return l.lexToken('\n')
+}
+
+// readHeredocs reads the here-documents of the pending redirections. It
+// returns false when lexing cannot continue.
+func (l *lexer) readHeredocs() bool {
 	find := func(r *ast.Redir, delim string) bool {
 		for i := len(l.word) - 1; i >= 0; i-- {
 			if l.word[i].Pos().Col() == 1 {
@@ -718,7 +727,7 @@ func (l *lexer) lexHeredoc() action {
 			if err != nil {
 				if !l.heredoc.exists() {
 					if l.lit(); find(h, delim) {
-						return nil
+						return false
 					}
 				}
 				goto Error
@@ -758,14 +767,14 @@ func (l *lexer) lexHeredoc() action {
 					l.lit()
 					l.mark(-1)
 					if !l.scanParamExp() {
-						return nil
+						return false
 					}
 				case '`':
 					// command substitution
 					l.lit()
 					l.mark(-1)
 					if !l.scanCmdSubst('`') {
-						return nil
+						return false
 					}
 				default:
 					l.b.WriteRune(r)
@@ -779,10 +788,10 @@ func (l *lexer) lexHeredoc() action {
 			if err == io.EOF {
 				l.error(h.OpPos, "syntax error: here-document delimited by EOF")
 			}
-			return nil
+			return false
 		}
 	}
-	return l.lexToken('\n')
+	return true
 }
 
 func (l *lexer) scanArithExpr(pos ast.Pos) int {
@@ -1551,6 +1560,9 @@ func (l *lexer) linebreak() bool {
 			hash = false
 			l.comment()
 			l.mark(0)
+			if l.heredoc.exists() && !l.readHeredocs() {
+				return false
+			}
 		case '#':
 			// comment
 			if hash {
